@@ -92,7 +92,7 @@ def main():
         sh("cargo build --offline", cwd=wt)
         meta["confirmed"]["demo_unchanged"] = {"rc": base[0], "stdout": base[1][:2000], "stderr": base[2][:500]}
         meta["confirmed"]["demo_with_change"] = {"rc": mut[0], "stdout": mut[1][:2000], "stderr": mut[2][:500]}
-        meta["confirmed"]["demo_differs"] = (base[0], base[1]) != (mut[0], mut[1]) or base[2].splitlines()[:1] != mut[2].splitlines()[:1]
+        meta["confirmed"]["demo_differs"] = (base[0], base[1]) != (mut[0], mut[1]) or base[2] != mut[2]
         ok = meta["confirmed"]["builds"] and passed == 339 and failed == 0 and meta["confirmed"]["demo_differs"]
         print(f"  confirmed: builds={meta['confirmed']['builds']} tests={passed} passed/{failed} failed demo_differs={meta['confirmed']['demo_differs']} -> {'KEEP' if ok else 'REJECT'}")
         if not ok:
